@@ -8,6 +8,18 @@ from props import PROPS, NOT_APPLICABLE, ENGINES
 ids = [json.loads(l)["id"] for l in open(os.path.join(ROOT, "properties.jsonl"))]
 hooks_commits = subprocess.run(["git", "-C", "/repo", "log", "--format=%H %s"], capture_output=True, text=True).stdout.splitlines()
 hook_shas = [l.split()[0] for l in hooks_commits if "verif-hooks" in l or "verif hook" in l.lower()]
+TECH = {
+    "seq": "bounded-exhaustive enumeration of all operation sequences up to a depth on the real store vs a reference map model",
+    "seqtx": "bounded-exhaustive enumeration of sequences with transactions held open across operations",
+    "crash": "exhaustive crash-point enumeration: every boundary between mutating libc calls of every bounded history, nested in recovery, on the real code (live-directory images via LD_PRELOAD)",
+    "power": "exhaustive enumeration of sync-loss images: every cut x every subset of files losing unsynced bytes, reconstruction validated against the live directory at every cut",
+    "fault": "exhaustive single-fault enumeration: EIO at every mutating libc call of every bounded history, continuation and reopen vs an allowed-value model",
+    "waldmg": "exhaustive enumeration of truncation offsets and single-byte changes of the un-checkpointed log tail, opened by the real code",
+    "plant": "exhaustive small subsets of planted garbage/corruption vs an independent directory/index comparison",
+    "input": "exhaustive small-scope input enumeration into the real codecs / API under catch_unwind and an allocation guard",
+    "sched": "stateless model checking of the implementation: controlled scheduler over the real locks and files, preemption-bounded exhaustive DFS of interleavings with replay divergence checks",
+    "open": "controlled-scheduler exploration of racing opens (every filesystem call a scheduling point), cross-process pause/kill enumeration, exhaustive settings configurations",
+}
 checks = []
 for pid in ids:
     if pid not in PROPS:
@@ -20,9 +32,9 @@ for pid in ids:
         "evidence_file": f"/verif/evidence/{pid}.json",
         "replay_cmd_template": "bin/check --replay {path}",
         "engine": "+".join(e["engine"] for e in s["engines"]),
-        "level_claimed": {"category": "model_checking", "text": s["explanation"], "design_ref": s.get("design_ref", "DESIGN.md §3 " + pid)},
+        "level_claimed": {"category": "model_checking", "text": s["explanation"], "design_ref": s.get("design_ref", "DESIGN.md §3 " + pid + ", §9 (as built)")},
         "level_note": s.get("level_note", "Bounded: holds for every behaviour inside the stated alphabet/depth/bounds only. Trusted: kernel rename/unlink/flock atomicity on tmpfs, parking_lot, the harness's model and decoders."),
-        "technique": s.get("technique", "bounded exhaustive enumeration of executions of the real implementation against a reference model"),
+        "technique": s.get("technique", "model checking of the implementation (no abstract model): " + "; ".join(dict.fromkeys(TECH[e["engine"]] for e in s["engines"]))),
     })
 na = [{"property_id": p, "reason": r} for p, r in NOT_APPLICABLE.items() if p not in PROPS]
 m = {
